@@ -122,6 +122,17 @@ Enabled(db, o) ==
     [] o.op = "Abort"        -> db.ups[o.k] # None
     [] o.op = "Transition"   -> db.objs[o.k] # None /\ db.objs[o.k].class # o.class
 
+\* set-up macros (never exploded): a complete two-part multipart object, a pending upload with one part
+MacroOps ==
+  {Op("PutMP", k, "-", "-", cl, 0) : k \in KeySet, cl \in Classes} \cup
+  {Op("MkUpload", k, "-", "-", cl, 0) : k \in KeySet, cl \in Classes}
+Expand(o) ==
+  CASE o.op = "PutMP" -> <<Op("CreateUpload", o.k, "-", "-", o.class, 0), Op("UploadPart", o.k, "-", "c2", "-", 1),
+                           Op("UploadPart", o.k, "-", "c3", "-", 2), Op("Complete", o.k, "-", "-", "-", 0)>>
+    [] o.op = "MkUpload" -> <<Op("CreateUpload", o.k, "-", "-", o.class, 0), Op("UploadPart", o.k, "-", "c2", "-", 1)>>
+    [] OTHER -> <<o>>
+ASSUME {"c2", "c3"} \subseteq Contents
+
 Part(st, id, c) == [st |-> st, id |-> id, c |-> c]
 Call(t, p) == [t |-> t, st |-> p.st, id |-> p.id, c |-> p.c]
 
@@ -213,8 +224,11 @@ BodyIns(cl)  == IF cl.t = "put" THEN PerDir(cl, <<"create">>) \o PerDir(cl, <<"w
 PreIns(cl)   == IF cl.t = "put" THEN PerDir(cl, <<"putpre1", "putpre2">>) ELSE PerDir(cl, <<"delpre">>)
 AfterIns(cl) == IF cl.t = "put" THEN PerDir(cl, <<"putafter">>) ELSE PerDir(cl, <<"delafter">>)
 
+\* "sql": the rest of the transaction body after the last part file was written (SQL
+\* statements of the still uncommitted transaction) - no effect on files or committed data
 Program(body) ==
-  Concat(body, BodyIns) \o Concat(body, PreIns)
+  Concat(body, BodyIns) \o (IF Concat(body, BodyIns) # <<>> THEN <<Ins("sql", "-", 0, "-")>> ELSE <<>>)
+    \o Concat(body, PreIns)
     \o <<Ins("commit", "-", 0, "-"), Ins("committed", "-", 0, "-")>> \o Concat(body, AfterIns)
 
 \* the hook point of /repo passed immediately before instruction j of p
@@ -229,7 +243,7 @@ Label(p, j) ==
                    ELSE IF p[j - 1].i = "create" THEN "fs.put.tempcreated" ELSE "fs.put.tempclosed"
 Labels(p) == [j \in 1..Len(p) |-> Label(p, j)]
 
-\* files: dir -> set of [kind ("tmp" | "final" | "bak"), id, c]
+\* files: dir -> set of [kind ("tmp" | "final" | "bak" (backup made by DeletePart) | "bakp" (by PutPart)), id, c]
 File(kind, id, c) == [kind |-> kind, id |-> id, c |-> c]
 EmptyDisk == [d \in Dirs |-> {}]
 Has(disk, d, kind, id) == \E f \in disk[d] : f.kind = kind /\ f.id = id
@@ -245,12 +259,14 @@ Exec(st, ins, post) ==
       W(nfs) == [st EXCEPT !.disk[ins.d] = nfs]
   IN CASE ins.i = "create"    -> W(fs \cup {File("tmp", ins.id, "partial")})
        [] ins.i = "write"     -> W({f \in fs : ~(f.kind = "tmp" /\ f.id = ins.id)} \cup {File("tmp", ins.id, ins.c)})
-       [] ins.i = "putpre1"   -> W(Rename(fs, "final", "bak", ins.id))
+       [] ins.i = "putpre1"   -> W(Rename(fs, "final", "bakp", ins.id))
        [] ins.i = "putpre2"   -> W(Rename(fs, "tmp", "final", ins.id))
        [] ins.i = "delpre"    -> W(Rename(fs, "final", "bak", ins.id))
        [] ins.i = "commit"    -> [st EXCEPT !.db = post]
-       [] ins.i = "committed" -> st
-       [] ins.i \in {"putafter", "delafter"} -> W({f \in fs : ~(f.kind = "bak" /\ f.id = ins.id)})
+       [] ins.i \in {"committed", "sql"} -> st
+       \* each after-commit hook removes only the backup its own pre-commit hook created
+       [] ins.i = "putafter"  -> W({f \in fs : ~(f.kind = "bakp" /\ f.id = ins.id)})
+       [] ins.i = "delafter"  -> W({f \in fs : ~(f.kind = "bak" /\ f.id = ins.id)})
 
 \* state after the first n instructions of p
 After(st, p, post, n) == FoldLeft(LAMBDA s, ins : Exec(s, ins, post), st, SubSeq(p, 1, n))
@@ -259,19 +275,23 @@ After(st, p, post, n) == FoldLeft(LAMBDA s, ins : Exec(s, ins, post), st, SubSeq
 \* Intended design: recovery at Start.  The code: nothing (deviation).
 RecoverDir(db, d, fs) ==
   {f \in fs : f.kind = "final"} \cup
-  {File("final", f.id, f.c) : f \in {g \in fs : /\ g.kind = "bak"
+  {File("final", f.id, f.c) : f \in {g \in fs : /\ g.kind \in {"bak", "bakp"}
                                                 /\ Referenced(db, d, g.id)
                                                 /\ ~\E h \in fs : h.kind = "final" /\ h.id = g.id}}
-Restarted(st) ==
-  IF WindowTag \in Deviations THEN st
+RestartedD(st, devs) ==
+  IF WindowTag \in devs THEN st
   ELSE [st EXCEPT !.disk = [d \in Dirs |-> RecoverDir(st.db, d, st.disk[d])]]
+Restarted(st) == RestartedD(st, Deviations)
 
 \* ------------------------------------------------------ what the API shows
 ReadPart(disk, p) ==
   LET ds == DirsOf(p.st)
       present == {j \in 1..Len(ds) : File("final", p.id, p.c) \in disk[ds[j]]}
   IN IF Cardinality(present) >= StoreCfg[p.st].need THEN p.c ELSE "unreadable"
-ReadAll(disk, parts) == [i \in 1..Len(parts) |-> ReadPart(disk, parts[i])]
+\* an object is read as a whole: one unreadable part makes the GET fail
+ReadAll(disk, parts) ==
+  IF \E i \in 1..Len(parts) : ReadPart(disk, parts[i]) = "unreadable" THEN <<"unreadable">>
+  ELSE [i \in 1..Len(parts) |-> parts[i].c]
 View(st) == [objs |-> [k \in KeySet |-> ReadAll(st.disk, st.db.objs[k].parts)],
              cls  |-> [k \in KeySet |-> st.db.objs[k].class],
              ups  |-> [k \in KeySet |-> IF st.db.ups[k] = None THEN <<"-">>
@@ -286,49 +306,61 @@ FileClasses(st) ==
         n(S) == Cardinality(S)
         refIds == {id \in 1..st.db.next : Referenced(st.db, d, id)}
     IN [tmp        |-> n({f \in fs : f.kind = "tmp"}),
-        bakref     |-> n({f \in fs : f.kind = "bak" /\ f.id \in refIds}),
-        bakunref   |-> n({f \in fs : f.kind = "bak" /\ f.id \notin refIds}),
+        bakref     |-> n({f \in fs : f.kind \in {"bak", "bakp"} /\ f.id \in refIds}),
+        bakunref   |-> n({f \in fs : f.kind \in {"bak", "bakp"} /\ f.id \notin refIds}),
         finalref   |-> n({f \in fs : f.kind = "final" /\ f.id \in refIds}),
         finalunref |-> n({f \in fs : f.kind = "final" /\ f.id \notin refIds}),
         missing    |-> n({id \in refIds : ~\E f \in fs : f.kind = "final" /\ f.id = id})]]
 
 \* outcome of crashing at boundary j (before instruction j; j = Len(p)+1: after the last)
-CrashView(st0, p, post, j) == View(Restarted(After(st0, p, post, j - 1)))
-Outcome(st0, p, post, j) ==
-  LET v    == CrashView(st0, p, post, j)
-      pre  == View(st0)
-      pst  == View(After(st0, p, post, Len(p)))
-  IN IF v = pre /\ v = pst THEN "pre=post"
-     ELSE IF v = pre THEN "pre"
-     ELSE IF v = pst THEN "post"
-     ELSE "BROKEN"
+OutcomeD(st0, p, post, j, devs) ==
+  LET v    == View(RestartedD(After(st0, p, post, j - 1), devs))
+      pv   == View(st0)
+      gv   == View(After(st0, p, post, Len(p)))
+  IN IF ~Readable(v) THEN "UNREADABLE"
+     ELSE IF v = pv /\ v = gv THEN "pre=post"
+     ELSE IF v = pv THEN "pre"
+     ELSE IF v = gv THEN "post"
+     ELSE "NEITHER"
 
-\* classification of the exploded operation (coverage of operation kinds)
+\* a whole set-up operation / a sequence of them
+StepAtomic(s, o) == Bind(Apply(s.db, o), LAMBDA a : Bind(Program(a.body), LAMBDA p : After(s, p, a.post, Len(p))))
+RunSeq(s, ops) == FoldLeft(LAMBDA x, o : StepAtomic(x, o), s, ops)
+RECURSIVE SeqEnabled(_, _)
+SeqEnabled(s, ops) ==
+  IF ops = <<>> THEN TRUE
+  ELSE /\ Head(ops) \in Ops
+       /\ Enabled(s.db, Head(ops))
+       /\ SeqEnabled(StepAtomic(s, Head(ops)), Tail(ops))
+
+\* classification of the exploded operation (coverage of operation kinds); "-mp": it
+\* writes or deletes at least two parts
+KindBase(db, o, nput, ndel, dd) ==
+  CASE o.op = "Put" /\ dd -> "put-dedup"
+    [] o.op = "Put" /\ db.objs[o.k] = None -> "put-new"
+    [] o.op = "Put" /\ ndel > 0 -> "overwrite"
+    [] o.op = "Put" -> "overwrite-shared"
+    [] o.op = "Delete" /\ ndel > 0 -> "delete"
+    [] o.op = "Delete" -> "delete-shared"
+    [] o.op = "Copy" /\ nput > 0 -> "copy-cross"
+    [] o.op = "Copy" /\ ndel > 0 -> "copy-shared-overwrite"
+    [] o.op = "Copy" -> "copy-shared"
+    [] o.op = "Complete" /\ ndel > 0 -> "complete-overwrite"
+    [] o.op = "Complete" -> "complete"
+    [] o.op = "Abort" /\ ndel > 0 -> "abort"
+    [] o.op = "Abort" -> "abort-nofiles"
+    [] o.op = "Transition" /\ nput > 0 -> "transition-cross"
+    [] o.op = "Transition" -> "transition-shared"
+    [] o.op = "UploadPart" /\ dd -> "uploadpart-dedup"
+    [] o.op = "UploadPart" /\ ndel > 0 -> "uploadpart-replace"
+    [] o.op = "UploadPart" -> "uploadpart"
+    [] OTHER -> "createupload"
 Kind(db, o) ==
-  LET b    == Apply(db, o).body
-      nput == Cardinality({i \in 1..Len(b) : b[i].t = "put"})
-      ndel == Cardinality({i \in 1..Len(b) : b[i].t = "del"})
-      dd   == \E i \in 1..Len(b) : \E j \in 1..Len(b) : b[i].t = "put" /\ b[j].t = "del" /\ b[i].id = b[j].id
-      cross == \E i \in 1..Len(b) : b[i].t = "put" /\ b[i].st # "main"
-  IN CASE o.op = "Put" /\ dd -> "put-dedup"
-       [] o.op = "Put" /\ db.objs[o.k] = None -> "put-new"
-       [] o.op = "Put" /\ ndel > 0 -> "overwrite"
-       [] o.op = "Put" -> "overwrite-shared"
-       [] o.op = "Delete" /\ ndel > 0 -> "delete"
-       [] o.op = "Delete" -> "delete-shared"
-       [] o.op = "Copy" /\ nput > 0 -> "copy-cross"
-       [] o.op = "Copy" /\ ndel > 0 -> "copy-shared-overwrite"
-       [] o.op = "Copy" -> "copy-shared"
-       [] o.op = "Complete" /\ ndel > 0 -> "complete-overwrite"
-       [] o.op = "Complete" -> "complete"
-       [] o.op = "Abort" /\ ndel > 0 -> "abort"
-       [] o.op = "Abort" -> "abort-nofiles"
-       [] o.op = "Transition" /\ nput > 0 -> "transition-cross"
-       [] o.op = "Transition" -> "transition-shared"
-       [] o.op = "UploadPart" /\ dd -> "uploadpart-dedup"
-       [] o.op = "UploadPart" /\ ndel > 0 -> "uploadpart-replace"
-       [] o.op = "UploadPart" -> "uploadpart"
-       [] OTHER -> "createupload"
+  Bind(Apply(db, o).body, LAMBDA b :
+    LET nput == Cardinality({i \in 1..Len(b) : b[i].t = "put"})
+        ndel == Cardinality({i \in 1..Len(b) : b[i].t = "del"})
+        dd   == \E i \in 1..Len(b) : \E j \in 1..Len(b) : b[i].t = "put" /\ b[j].t = "del" /\ b[i].id = b[j].id
+    IN KindBase(db, o, nput, ndel, dd) \o (IF nput >= 2 \/ ndel >= 2 THEN "-mp" ELSE ""))
 
 \* ------------------------------------------------------------ state machine
 VARIABLES st,      \* [db, disk]: committed database and files
@@ -349,8 +381,8 @@ Init == /\ st = [db |-> EmptyDb, disk |-> EmptyDisk]
 
 \* a set-up operation, executed without a crash
 ApiAtomic(o) ==
-  /\ phase = "idle" /\ nops < MaxSetup /\ Enabled(st.db, o)
-  /\ \E a \in {Apply(st.db, o)} : \E p \in {Program(a.body)} : st' = After(st, p, a.post, Len(p))
+  /\ phase = "idle" /\ nops < MaxSetup /\ SeqEnabled(st, Expand(o))
+  /\ st' = RunSeq(st, Expand(o))
   /\ nops' = nops + 1
   /\ UNCHANGED <<phase, run, pc, pre, goal>>
 
@@ -387,7 +419,8 @@ Restart ==
   /\ phase' = "up"
   /\ UNCHANGED <<run, pc, nops, pre, goal>>
 
-Next == \/ \E o \in Ops : ApiAtomic(o) \/ Begin(o)
+Next == \/ \E o \in Ops \cup MacroOps : ApiAtomic(o)
+        \/ \E o \in Ops : Begin(o)
         \/ Step \/ Return \/ Crash \/ Restart
 Spec == Init /\ [][Next]_vars
 
